@@ -24,6 +24,9 @@ CLAIMED["C02"] = ("exploration", "exhaustive crossing of link kind x parameter a
 CLAIMED["C09"] = ("exploration", "exhaustive enumeration of all small multigraphs x every closed-link subset x toggle schedules, each simulated; oracle = reference graph reachability over reported statuses + steady-state differential",
     "all connected multigraphs within the node/link bound (canonical under relabelling), all 2^L closed subsets and all single (thorough: double) toggle schedules are simulated on the real simulator (Python graph bookkeeping and the C++ search are both rebuilt from the tree)",
     "networks larger than the bound are not covered; pump/TCV variants only on link 0")
+CLAIMED["C06"] = ("exploration", "fully crossed enumeration of a tank family (shape x init x tank-link kind x second link x demand pattern x step x leak), every run on WNTRSimulator with 'ALL' reporting; volume-integration and limit invariants on every pair of consecutive solved steps",
+    "every configuration of the crossed alphabets is simulated; the volume identity is exact arithmetic on reported numbers (own cylinder / piecewise-linear curve reference), limits use the 2 s of flow the statement allows",
+    "min-level clauses are not applied to a tank with an active leak (a leak is not a link; counted skips)")
 NOT_YET = "check not built yet in this session (work in progress, see DESIGN.md section 4)"
 
 
